@@ -138,7 +138,7 @@ FloatFloatP(e) ==
          ELSE IF NearestF32(x, DOfJson(e.g)) THEN "ok" ELSE "nearest"
 
 (* -------- C16 -------------------------------------------------------------------- *)
-DepthOp(e) ==
+DepthOp1(e) ==
     LET b == e.b  y == ZOfJson(e.y) IN
     CASE e.op = "MaxS" -> IF ZEq(y, MaxS(b)) THEN "ok" ELSE "bound"
       [] e.op = "MinS" -> IF ZEq(y, MinS(b)) THEN "ok" ELSE "bound"
@@ -154,6 +154,10 @@ DepthOp(e) ==
       [] e.op = "Scale" ->       \* e.sd = bits of the integer type, e.ss = 1 if signed
            LET fits == (e.h - e.l) <= e.sd - (IF e.ss = 1 THEN 2 ELSE 1) IN
            IF fits /\ ~ZEq(y, ZPow2(e.h - e.l)) THEN "scale" ELSE "ok"
+
+\* depth 0 is outside C16's domain (1..64); its documented behaviour (every bound is zero) is specified and
+\* compared all the same, under a class of its own
+DepthOp(e) == LET v == DepthOp1(e) IN IF e.op # "Scale" /\ e.b = 0 /\ v # "ok" THEN "depth0" ELSE v
 
 (* -------- C17 -------------------------------------------------------------------- *)
 MaxRate == D(FALSE, NFromInt(1000000), 0)
